@@ -36,6 +36,8 @@ var hardDocStrings = []string{"\ufffd", "\ufffdabc", "\u007f", "\u0080", "\u07ff
 	"\\u003c", "\\u003e\\u0026", "a\\nb", "\\\\", "\\\"", "\\u0041", "&lt;&amp;", "\\x41", "%41", "\\'", "\\`", "<>&", "</script>", "\\u2028",
 	// a quote next to characters of two, three and four bytes (raw strings escape the quote: offsets counted in bytes vs runes)
 	"é'é", "''é", "𝄞'", "'\u0080", "ა'ა'", "'\uffff'",
+	// integers in other bases (text that strconv.ParseInt with base 0 reads, ParseFloat does not)
+	"0x1F", "0o17", "0b101",
 	// words of the library's own error messages (anything that classifies an error by its text)
 	"popularity", "wrong number of args", "invalid arity", "unknown function: x", "Invalid type for: x", "<nil>",
 	// the text of a surrogate escape (six plain characters)
